@@ -40,10 +40,13 @@ Ctx(kind, s, t) ==
       [] kind = "store"  -> << d, EAinit, Store(t.s, t.w, Var("EA"), A) >>
       [] kind = "cmpd"   -> << d, Decl(t, "x", Rtt), ExprS(Assign(X, "+=", A)) >> \o Obs(X)   \* (T)(x + a)
       \* chained assignment  y = x = a : y gets the value of x AFTER conversion to x's type (y has the type of a)
+      [] kind = "cmpd-shl" -> << d, Decl(t, "x", Rtt), ExprS(Assign(X, "<<=", Bin("&", A, NumN(7)))) >> \o Obs(X)
+      [] kind = "cmpd-shr" -> << d, Decl(t, "x", Rtt), ExprS(Assign(X, ">>=", Bin("&", A, NumN(7)))) >> \o Obs(X)
+      [] kind = "cmpd-mul" -> << d, Decl(t, "x", Rtt), ExprS(Assign(X, "*=", A)) >> \o Obs(X)
       [] kind = "chain"  -> << d, Decl(t, "x", None), Decl(s, "y", None), Set(Var("y"), Assign(X, "=", A)) >> \o Obs(Var("y")) \o << Set(Rdd, X) >>
       [] kind = "chainreg" -> << d, Decl(t, "x", None), Set(Rdd, Assign(X, "=", A)) >>
 
-Kinds == <<"cast", "init", "assign", "reg32", "reg64", "pred", "arg", "ret", "store", "cmpd", "chain", "chainreg">>
+Kinds == <<"cast", "init", "assign", "reg32", "reg64", "pred", "arg", "ret", "store", "cmpd", "chain", "chainreg", "cmpd-shl", "cmpd-shr", "cmpd-mul">>
 Pairs ==
     [i \in 1..(Len(Kinds) * 64) |->
         LET kind == Kinds[((i - 1) \div 64) + 1]
